@@ -488,12 +488,105 @@ def read_setter_rows():
                     elif isinstance(st, ast.Assign) and not uses(st.value) and isinstance(st.value, (ast.Constant, ast.Attribute)) \
                             and ((ast.unparse(st.targets[0]).startswith("self._") and is_setter) or ast.unparse(st.targets[0]) == param):
                         atoms.append("constChoice")  # one of finitely many canonical values is stored (an alias is replaced)
+                # the stored value must be a function of the argument alone: an expression that flows into the stored value and reads
+                # another field of the object (self.x, self.__dict__[...] / .get(...)) makes the result depend on the ORDER of assignment
+                for st in ast.walk(f):
+                    if isinstance(st, (ast.Assign, ast.AugAssign)):
+                        tg = st.targets[0] if isinstance(st, ast.Assign) else st.target
+                        tname = ast.unparse(tg)
+                        flows = tname in carriers or tname.startswith("self.__dict__[")
+                        if not flows:
+                            continue
+                        for n in ast.walk(st.value):
+                            if isinstance(n, ast.Attribute) and isinstance(n.value, ast.Name) and n.value.id == "self" \
+                                    and not n.attr.endswith("_reg") and ast.unparse(n) not in carriers and ast.unparse(n) != tname:
+                                atoms.append("readsOther")
                 seen = []
                 for a in atoms:
                     if a not in seen:
                         seen.append(a)
                 rows.append((c.name, f.name if is_setter else "*", seen, validates))
     return rows
+
+
+def read_element_reader(src):
+    """ast of from_dict's helper `_control_element`: the type words it looks up as nodes / as links, a fallback on the name, the final return"""
+    fn = [n for n in ast.parse(src).body if isinstance(n, ast.FunctionDef) and n.name == "from_dict"][0]
+    helper = [n for n in ast.walk(fn) if isinstance(n, ast.FunctionDef) and n.name == "_control_element"]
+    if not helper:
+        return None
+    h = helper[0]
+    consts = {}
+    for st in ast.walk(fn):
+        if isinstance(st, ast.Assign) and len(st.targets) == 1 and isinstance(st.targets[0], ast.Name) and isinstance(st.value, (ast.Tuple, ast.List, ast.Set)) \
+                and all(isinstance(e, ast.Constant) and isinstance(e.value, str) for e in st.value.elts):
+            consts[st.targets[0].id] = [e.value for e in st.value.elts]
+
+    def words(test):
+        out = []
+        for c in ast.walk(test):
+            if isinstance(c, ast.Compare) and len(c.ops) == 1 and isinstance(c.ops[0], ast.In):
+                r = c.comparators[0]
+                if isinstance(r, (ast.Tuple, ast.List, ast.Set)) and all(isinstance(e, ast.Constant) and isinstance(e.value, str) for e in r.elts):
+                    out += [e.value for e in r.elts]
+                elif isinstance(r, ast.Name) and r.id in consts:
+                    out += consts[r.id]
+        return out
+
+    def by_name(test):
+        return any(isinstance(c, ast.Compare) and isinstance(c.ops[0], ast.In) and "name_list" in ast.unparse(c.comparators[0]) for c in ast.walk(test))
+
+    def target(stmts):
+        for st in stmts:
+            if isinstance(st, ast.Return) and st.value is not None:
+                t = ast.unparse(st.value)
+                return "node" if ".get_node(" in t else ("link" if ".get_link(" in t else "other")
+        return None
+
+    rd = {"nodeWords": [], "linkWords": [], "nameFallback": False, "default": None}
+    for st in h.body:
+        if isinstance(st, ast.If):
+            node = st
+            while isinstance(node, ast.If):
+                tg = target(node.body)
+                if tg == "node":
+                    rd["nodeWords"] += words(node.test)
+                elif tg == "link":
+                    rd["linkWords"] += words(node.test)
+                if tg in ("node", "link") and by_name(node.test):
+                    rd["nameFallback"] = True
+                nxt = node.orelse
+                if len(nxt) == 1 and isinstance(nxt[0], ast.If):
+                    node = nxt[0]
+                else:
+                    if nxt and target(nxt):
+                        rd["default"] = target(nxt)
+                    node = None
+        elif isinstance(st, ast.Return):
+            rd["default"] = target([st])
+    if rd["default"] not in ("node", "link"):
+        raise BrokenTie("from_dict._control_element: cannot read what its final return looks up")
+    return rd
+
+
+def reflect_writer_words(wntr):
+    """the type word ControlAction.__str__ / ValueCondition.__str__ write for every element kind (reflection on the zoo model)"""
+    C = wntr.network.controls
+    wn = G.realise(wntr, zoo_spec())
+    out = []
+    for nm in wn.node_name_list + wn.link_name_list:
+        is_node = nm in wn.node_name_list
+        obj = wn.get_node(nm) if is_node else wn.get_link(nm)
+        attr = "head" if is_node else "status"
+        ws = {str(C.ValueCondition(obj, attr, ">", 1.0)).split()[0]}
+        if not is_node:
+            ws.add(str(C.ControlAction(obj, "status", 1)).split()[0])
+        else:
+            ws.add(str(C.ControlAction(obj, "head", 1.0)).split()[0] if hasattr(obj, "head") else list(ws)[0])
+        for w in sorted(ws):
+            if (w, is_node) not in out:
+                out.append((w, is_node))
+    return out
 
 
 def reflect_sections(wntr):
@@ -520,7 +613,7 @@ def reflect_sections(wntr):
     return em, rel
 
 
-def gen_sections_lean(opt_tables, em, model_rows, branches, rel, setters=None):
+def gen_sections_lean(opt_tables, em, model_rows, branches, rel, setters=None, elem_reader=None, writer_words=None):
     out = ["-- GENERATED by harness/props/c13.py from wntr/network/io.py:from_dict, options.py (ast) and to_dict (reflection). Do not edit.",
            "import WntrModel.Model.SchemaSections", "namespace Wntr.Schema.Gen", "open Wntr.Schema", ""]
 
@@ -561,6 +654,18 @@ def gen_sections_lean(opt_tables, em, model_rows, branches, rel, setters=None):
         "true" if via else "false", ", ".join(str(i) for i in sb["toks"].get("ta", [])), ", ".join(str(i) for i in sb["toks"].get("cond", []))))
     out.append("")
     out.append("def relRows : List (String × String × String) := [%s]" % ", ".join("(%s, %s, %s)" % (_ls(a), _ls(b), _ls(c)) for a, b, c in rel))
+    out.append("")
+    er = elem_reader
+    out.append("def elemReader : Ctl.ElemReader :=")
+    if er is None:
+        out.append("  { present := false, nodeWords := [], linkWords := [], nameFallback := false, defaultIsLink := true }")
+    else:
+        out.append("  { present := true, nodeWords := [%s], linkWords := [%s], nameFallback := %s, defaultIsLink := %s }" % (
+            ", ".join(_ls(w) for w in er["nodeWords"]), ", ".join(_ls(w) for w in er["linkWords"]),
+            "true" if er["nameFallback"] else "false", "true" if er["default"] == "link" else "false"))
+    out.append("")
+    out.append("/-- (type word written by ControlAction / ValueCondition.__str__, is the element a node) for every element kind -/")
+    out.append("def writerWords : List (String × Bool) := [%s]" % ", ".join("(%s, %s)" % (_ls(w), "true" if n else "false") for w, n in (writer_words or [])))
     out.append("")
     out.append("/-- property setters of base.py / elements.py and the __setattr__ of the option groups: what the argument goes through -/")
     out.append("def setterRows : List Setters.SetterRow := [")
@@ -691,6 +796,67 @@ def widen_controls(rng, sp):
     return sp
 
 
+def share_names(rng, sp):
+    """EPANET-style numbering: a node and a link with the SAME id (tank '3' and pipe '3').  Up to one link per node kind is renamed to
+    the name of a junction / tank / reservoir, and simple controls and a rule are added whose conditions and actions name both."""
+    links = sp["pipes"] + sp["pumps"] + sp["valves"]
+    rng.shuffle(links)
+    nodes = []
+    for kind, lst in (("tank", sp["tanks"]), ("junction", sp["junctions"]), ("reservoir", sp["reservoirs"])):
+        if lst:
+            nodes.append((kind, rng.choice(lst)))
+    ren = {}
+    for (kind, nd), l in zip(nodes, links):
+        ren[l["name"]] = nd["name"]
+    if not ren:
+        return sp
+
+    def fix_cond(c):
+        if c[0] in ("and", "or"):
+            return [c[0], fix_cond(c[1]), fix_cond(c[2])]
+        if c[0] == "val" and c[1] == "link" and c[2] in ren:
+            return c[:2] + [ren[c[2]]] + c[3:]
+        return c
+
+    for l in links:
+        l["name"] = ren.get(l["name"], l["name"])
+    for c in sp["controls"]:
+        c["cond"] = fix_cond(c["cond"])
+        c["then"] = [[ren.get(a[0], a[0])] + a[1:] for a in c["then"]]
+        c["else"] = [[ren.get(a[0], a[0])] + a[1:] for a in c["else"]]
+    extra = []
+    for (kind, nd), l in zip(nodes, links):
+        nm = nd["name"]
+        if kind == "tank":
+            ncond = ["val", "node", nm, "level", rng.choice(["<", ">"]), round(rng.uniform(nd["min"], nd["max"]), 2)]
+        elif kind == "junction":
+            ncond = ["val", "node", nm, "pressure", rng.choice(["<", ">"]), round(rng.uniform(5, 60), 2)]
+        else:
+            ncond = ["val", "node", nm, "head", rng.choice(["<", ">"]), round(rng.uniform(10, 60), 2)]
+        lcond = ["val", "link", nm, "status", "=", rng.choice(["OPEN", "CLOSED"])]
+        act = [nm, "status", rng.choice(["OPEN", "CLOSED"])]
+        extra.append({"name": "shared %s c" % nm, "kind": "control", "cond": ncond, "then": [act], "else": [], "priority": 3})
+        extra.append({"name": "shared %s l" % nm, "kind": "control", "cond": lcond, "then": [[rng.choice(links)["name"], "status", "OPEN"]], "else": [], "priority": 3})
+        extra.append({"name": "sharedrule%s" % nm, "kind": "rule", "cond": [rng.choice(["and", "or"]), ncond, lcond], "then": [act],
+                      "else": [[nm, "status", "OPEN"]] if rng.random() < 0.5 else [], "priority": rng.choice([3, 1])})
+    sp["controls"] = sp["controls"] + extra
+    return sp
+
+
+def cross_time_options(rng, wn):
+    """time steps in every order relation to the hydraulic step (rule > hydraulic as after reading Anytown.inp, report < hydraulic,
+    pattern != hydraulic, quality > hydraulic ...), assigned in a random order"""
+    h = rng.choice([60, 300, 900, 3600])
+    vals = {"hydraulic_timestep": h, "rule_timestep": rng.choice([30, 60, 360, 3600, 7200]), "quality_timestep": rng.choice([30, 300, 3600, 7200]),
+            "pattern_timestep": rng.choice([600, 3600, 7200, 100]), "report_timestep": rng.choice([60, 3600, 7200, 450]),
+            "duration": rng.choice([0, 1800, 86400]), "pattern_start": rng.choice([0, 450]), "report_start": rng.choice([0, 90])}
+    keys = list(vals)
+    rng.shuffle(keys)
+    for k in keys:
+        setattr(wn.options.time, k, vals[k])
+    return "rule%shyd" % (">" if vals["rule_timestep"] > h else ("<" if vals["rule_timestep"] < h else "="))
+
+
 KIND_OF = {"Junction": "junction", "Tank": "tank", "Reservoir": "reservoir", "Pipe": "pipe", "Pump": "pump"}
 
 
@@ -819,7 +985,8 @@ class C13(Check):
         ctx.cov["schema_rows"] = sum(len(v) for v in rows.values())
         vlib.write_if_changed(os.path.join(vlib.GEN, "SchemaDict.lean"), gen_schema_lean(em, dfl, rows))
         # the non-element sections: option groups, the dictionary's own keys, control entries, the simple-control reader
-        sr = _SectionReader(open(os.path.join(vlib.REPO, "wntr", "network", "io.py")).read())
+        io_src = open(os.path.join(vlib.REPO, "wntr", "network", "io.py")).read()
+        sr = _SectionReader(io_src)
         opt_tables = read_option_tables(wntr)
         sem, rel = reflect_sections(wntr)
         self.branches = sr.control_branches()
@@ -830,7 +997,8 @@ class C13(Check):
         ctx.cov["option_groups"] = len(opt_tables) - 1
         ctx.cov["option_fields"] = sum(len(t[1]) for t in opt_tables[1:])
         ctx.cov["simple_reader"] = "coded(_read_control_line)" if self.simple_via_control_line else "repaired(text as written)"
-        vlib.write_if_changed(os.path.join(vlib.GEN, "SchemaSections.lean"), gen_sections_lean(opt_tables, sem, sr.model_rows(), self.branches, rel, setters))
+        vlib.write_if_changed(os.path.join(vlib.GEN, "SchemaSections.lean"), gen_sections_lean(opt_tables, sem, sr.model_rows(), self.branches, rel, setters,
+                                                                                                       read_element_reader(io_src), reflect_writer_words(wntr)))
 
     # ---------------------------------------------------------------- cases
     def _cases(self, ctx, wntr):
@@ -844,6 +1012,9 @@ class C13(Check):
                 # the repaired from_dict re-reads the texts as written: the whole API range of simple controls is generated
                 # (through _read_control_line they are the two known findings; the wide classes are not generated then)
                 sp = widen_controls(ctx.rng, sp)
+            if i % 4 == 2 and not getattr(self, "simple_via_control_line", True):
+                sp = share_names(ctx.rng, sp)
+                sp["_shared_names"] = True
             yield ("gen%d" % i, sp, None)
         nets = ["Net1.inp", "Net2.inp", "Net3.inp"] + ([] if ctx.quick else ["Net6.inp", "ky10.inp"])
         for nm in nets:
@@ -905,6 +1076,10 @@ class C13(Check):
                             jn.add_leak(wn, 0.0125, 0.6, 3600, 7200)
                             jn.remove_leak(wn)
                             ctx.count("case:leak-added-and-removed")
+                    if sp is not None and sp.get("_shared_names"):
+                        ctx.count("case:node-and-link-share-a-name")
+                    if sp is not None and ctx.rng.random() < 0.5:
+                        ctx.count("case:time-steps " + cross_time_options(ctx.rng, wn))
                     if sp is not None and ctx.rng.random() < 0.3:
                         # option groups the generator leaves alone: report, graphics, user
                         o = wn.options
